@@ -148,6 +148,11 @@ impl LogWriter {
     pub fn sync(&mut self) -> io::Result<()> {
         self.0.get_ref().sync_all()
     }
+
+    /// Close the log without writing the data that is still buffered.
+    pub fn discard(self) {
+        self.0.discard()
+    }
 }
 
 /// A random-access file reader that deserializes data using `bincode`.
